@@ -221,17 +221,25 @@ func valKey(m proto.Message) string {
 
 func (e *c03Exec) indexValues(in *inputs) {
 	e.containedVals, e.mainVals = map[string]bool{}, map[string]bool{}
-	for _, r := range in.resources {
-		walkMessages(r.ProtoReflect(), func(x protoreflect.Message) {
+	var walk func(m protoreflect.Message, inContained bool)
+	walk = func(m protoreflect.Message, inContained bool) {
+		walkMessages(m, func(x protoreflect.Message) {
 			if a, ok := x.Interface().(*anypb.Any); ok {
 				cr := newMessage(findDesc("ContainedResource"))
 				if a.UnmarshalTo(cr.Interface()) == nil {
-					walkMessages(cr, func(y protoreflect.Message) { e.containedVals[valKey(y.Interface())] = true })
+					walk(cr, true) // contained resources may nest
 				}
 				return
 			}
-			e.mainVals[valKey(x.Interface())] = true
+			if inContained {
+				e.containedVals[valKey(x.Interface())] = true
+			} else {
+				e.mainVals[valKey(x.Interface())] = true
+			}
 		})
+	}
+	for _, r := range in.resources {
+		walk(r.ProtoReflect(), false)
 	}
 }
 
